@@ -23,8 +23,8 @@ func c01Gen(rt *rapid.T) c01Case {
 	big := Cfg.Tier == "thorough" && rapid.IntRange(0, 19).Draw(rt, "big") == 0
 	cfg := gen.HistCfg{
 		MinStmts: 5, MaxStmts: 40, MaxTables: 4, MaxCols: 5, Direct: true,
-		RowCounts: []int{1, 1, 1, 2, 3, 4, 5, 8, 9, 10, 17, 18},
-		Small:     rapid.Bool().Draw(rt, "small"),
+		RowCounts:  []int{1, 1, 1, 2, 3, 4, 5, 8, 9, 10, 17, 18},
+		Small:      rapid.Bool().Draw(rt, "small"),
 		FlushFlags: true,
 	}
 	switch rapid.IntRange(0, 9).Draw(rt, "profile") {
